@@ -968,7 +968,13 @@ where
 	C: NodeClient + 'a,
 	K: Keychain + 'a,
 {
-	update_outputs(wallet_inst.clone(), keychain_mask, true)?;
+	// scanning repairs the wallet against the chain on the assumption that its output
+	// records have just been refreshed; do not proceed on stale records
+	if !update_outputs(wallet_inst.clone(), keychain_mask, true)? {
+		return Err(Error::GenericError(
+			"Unable to refresh outputs from the node, not scanning".into(),
+		));
+	}
 	let tip = {
 		wallet_lock!(wallet_inst, w);
 		w.w2n_client().get_chain_tip()?
